@@ -7,13 +7,13 @@ CHECKS = {
  "C01": dict(
    technique="model-based property testing (rapid histories + exhaustive small scope) against a relation model and a pure fold oracle",
    level="exploration",
-   text="Generated operation histories (random, model-aimed, plus every history of length<=3 [quick] / <=4 [thorough] over a 24-step alphabet) are run against rib.RIB and against server.Modify/Get over in-process streams; after every step the installed entries must equal (a) the pure fold of the acknowledged operations in acknowledgement order and (b) the relation model, and held-set / counters must match. Search, not proof: it shows the property on the explored histories and finds counterexamples, shrunk to a replay file. In addition: dependency graphs in disturbed arrival orders (held chains, dependencies deleted while waited for, doomed held REPLACEs failing inside a cascade) and one server-level history in four runs with the server behind a real grpc.Server over bufconn (real codec and HTTP/2 streams), under the same oracles. One random history in eight runs with reference checking disabled (rib.DisableRIBCheckFn / server.DisableRIBCheckFn) against the model without reference checks; server-level histories may read the contents back only after every 2nd-5th request.",
+   text="Generated operation histories (random, model-aimed, plus every history of length<=3 [quick] / <=4 [thorough] over a 24-step alphabet) are run against rib.RIB and against server.Modify/Get over in-process streams; after every step the installed entries must equal (a) the pure fold of the acknowledged operations in acknowledgement order and (b) the relation model, and held-set / counters must match. Search, not proof: it shows the property on the explored histories and finds counterexamples, shrunk to a replay file. In addition: dependency graphs in disturbed arrival orders (held chains, dependencies deleted while waited for, doomed held REPLACEs failing inside a cascade) and one server-level history in four runs with the server behind a real grpc.Server over bufconn (real codec and HTTP/2 streams), under the same oracles. One random history in eight runs with reference checking disabled (rib.DisableRIBCheckFn / server.DisableRIBCheckFn) against the model without reference checks; server-level histories may read the contents back only after every 2nd-5th request. At the server level the last network instance may be created at runtime at a drawn step (AddNetworkInstance).",
    note="Trusted: the reference model in harness/internal/model, the generator's notion of schema-valid payloads, rib.Concrete*Proto for reading L1 state (cross-checked by C07). Exhaustive only for the stated small scopes.",
    design="DESIGN.md §4 C01"),
  "C02": dict(
    technique="model-based property testing: every arrival order of small dependency graphs (exhaustive) + rapid-drawn larger graphs, against a relation model with completeness and closure invariants",
    level="exploration",
-   text="Operations of dependency graphs (NH <- NHG <- IPv4/IPv6/MPLS, cross-instance references, dependencies deleted/re-added/never arriving, doomed held REPLACEs) are applied in every arrival order for subsets of a 15-op pool (<=4 ops quick, <=5 thorough) and in random orders for larger generated graphs, with forward references on and off, against rib.RIB and the server streams. After every step: each acknowledged op must be resolvable at its turn, no held op may be resolvable (held-id hook), no installed entry may dangle, unresolved ops must be FAILED at once when forward references are disallowed. One generated graph in four is interrupted by a Flush (all instances or one): held operations are not entries, they stay held and must still be answered when their references arrive. The dependency graphs include a doomed held REPLACE with another operation queued behind the same missing group.",
+   text="Operations of dependency graphs (NH <- NHG <- IPv4/IPv6/MPLS, cross-instance references, dependencies deleted/re-added/never arriving, doomed held REPLACEs) are applied in every arrival order for subsets of a 15-op pool (<=4 ops quick, <=5 thorough) and in random orders for larger generated graphs, with forward references on and off, against rib.RIB and the server streams. After every step: each acknowledged op must be resolvable at its turn, no held op may be resolvable (held-id hook), no installed entry may dangle, unresolved ops must be FAILED at once when forward references are disallowed. One generated graph in four is interrupted by a Flush (all instances or one): held operations are not entries, they stay held and must still be answered when their references arrive. The dependency graphs include a doomed held REPLACE with another operation queued behind the same missing group. A bystander session that announced the same election id before the session may go away at a drawn step.",
    note="Trusted: reference model; the verif-tagged held-id hook. Exhaustive only for the stated pool/size; larger graphs are sampled.",
    design="DESIGN.md §4 C02"),
  "C03": dict(
@@ -25,73 +25,73 @@ CHECKS = {
  "C16": dict(
    technique="model-based property testing: a folding consumer of the hook notifications compared with RIBContents after every step, over generated histories x configuration orders",
    level="exploration",
-   text="C01-style histories (held-op resolution, single-NI and all-NI flushes) are run under four configuration orders of hook registration vs network-instance creation (rib API and server options, runtime AddNetworkInstance). A consumer folds post-change notifications and must equal RIBContents in every NI after every step; resolved-entry notifications are counted exactly (awaited by goroutine state, not time), must contain/lack the announced key and must be unchanged at the end of the history. In addition the mid-flush injection schedule of C08 is run with this property's oracle: when the Flush and the second actor's operation (mostly re-programming a key that is being flushed) have both finished, the fold of all notifications must equal the RIB contents. The harness-owned wall clock is stepped backwards/forwards or frozen before drawn steps; the injected schedules register the resolved-entry hook as a drawn option.",
+   text="C01-style histories (held-op resolution, single-NI and all-NI flushes) are run under four configuration orders of hook registration vs network-instance creation (rib API and server options, runtime AddNetworkInstance). A consumer folds post-change notifications and must equal RIBContents in every NI after every step; resolved-entry notifications are counted exactly (awaited by goroutine state, not time), must contain/lack the announced key and must be unchanged at the end of the history. In addition the mid-flush injection schedule of C08 is run with this property's oracle: when the Flush and the second actor's operation (mostly re-programming a key that is being flushed) have both finished, the fold of all notifications must equal the RIB contents. The harness-owned wall clock is stepped backwards/forwards or frozen before drawn steps; the injected schedules register the resolved-entry hook as a drawn option. The second actor of the injected schedules may create a network instance at runtime.",
    note="Trusted: obs conversion via rib.Concrete*Proto for both sides of the comparison; goroutine-dump based quiescence for the asynchronous resolved-entry hook.",
    design="DESIGN.md §4 C16"),
  "C08": dict(
    technique="property-based testing with full decision-table enumeration at a generated flush point, against an explicit status table and the RIB relation model",
    level="exploration",
-   text="For generated RIB contents (backup groups shared/missing/circular, cross-instance references) the complete decision table of Flush {target} x {election field} is enumerated against server election state (a learnt 128-bit id from a lattice, or none learnt with injected contents): every non-authorised or malformed cell must return the code and FlushResponseError reason gribi.proto assigns and change nothing (Get + hooks after each cell); one drawn authorised cell must answer OK, empty exactly its targets and leave counters consistent, and a generated epilogue of operations must behave as the model predicts. In addition (rib API), Flushes of 1-3 instances in a drawn order are stopped at a drawn removal notification through the public post-change hook; one further operation is started there on another goroutine and the Flush resumes only when that operation returned or is parked on a lock (goroutine state): the final contents must equal 'operation, then flush' or 'flush, then operation' under the belief model, Flush must succeed and counters must equal referrers. RIBs built with DisableRIBCheckFn (entries whose group is missing or whose group instance is unknown) are flushed with a model-free before/after oracle. The injected schedules register the RIB's resolved-entry hook as a drawn option; one shard runs with glog -v=2; rib-level calls run under the watchdog.",
+   text="For generated RIB contents (backup groups shared/missing/circular, cross-instance references) the complete decision table of Flush {target} x {election field} is enumerated against server election state (a learnt 128-bit id from a lattice, or none learnt with injected contents): every non-authorised or malformed cell must return the code and FlushResponseError reason gribi.proto assigns and change nothing (Get + hooks after each cell); one drawn authorised cell must answer OK, empty exactly its targets and leave counters consistent, and a generated epilogue of operations must behave as the model predicts. In addition (rib API), Flushes of 1-3 instances in a drawn order are stopped at a drawn removal notification through the public post-change hook; one further operation is started there on another goroutine and the Flush resumes only when that operation returned or is parked on a lock (goroutine state): the final contents must equal 'operation, then flush' or 'flush, then operation' under the belief model, Flush must succeed and counters must equal referrers. RIBs built with DisableRIBCheckFn (entries whose group is missing or whose group instance is unknown) are flushed with a model-free before/after oracle. The injected schedules register the RIB's resolved-entry hook as a drawn option; one shard runs with glog -v=2; rib-level calls run under the watchdog. The second actor of the injected schedules may create a network instance at runtime.",
    note="Trusted: the status table transcribed from gribi.proto comments (zero id: reason fixed, code INVALID_ARGUMENT or FAILED_PRECONDITION accepted); reference model; hooks. Authorised cells are sampled per RIB, rejected cells are all enumerated.",
    design="DESIGN.md §4 C08"),
  "C07": dict(
    technique="property-based testing: round-trip (programmed payload == Get payload), metamorphic relations over the (NI x table) request matrix, and FromGetResponses rebuild, on contents generated through Modify",
    level="exploration",
-   text="RIB contents are reached through Modify with payloads populating every fluent-settable field; then the whole request matrix {3 NIs, all, unknown} x {ALL and the five tables} is issued. Each response set must equal the model's installed entries of that scope with proto-equal payloads and correct NI tags; Get(ALL) must be the disjoint union of the per-table Gets and Get(all NIs) the union of per-NI Gets; empty scopes give empty OK streams; a RIB rebuilt with rib.FromGetResponses must equal the source contents. One case in four runs over a real grpc.Server on bufconn (every response marshalled and parsed); one in three reads the contents back only after every 2nd-6th request; the key universe contains valid but non-canonically spelled IPv6 prefixes. A many-instances scope runs servers with 1-21 network instances.",
+   text="RIB contents are reached through Modify with payloads populating every fluent-settable field; then the whole request matrix {3 NIs, all, unknown} x {ALL and the five tables} is issued. Each response set must equal the model's installed entries of that scope with proto-equal payloads and correct NI tags; Get(ALL) must be the disjoint union of the per-table Gets and Get(all NIs) the union of per-NI Gets; empty scopes give empty OK streams; a RIB rebuilt with rib.FromGetResponses must equal the source contents. One case in four runs over a real grpc.Server on bufconn (every response marshalled and parsed); one in three reads the contents back only after every 2nd-6th request; the key universe contains valid but non-canonically spelled IPv6 prefixes. A many-instances scope runs servers with 1-21 network instances. A slow-reader scope issues Get(all, ALL) for a live reader that takes 1-6 s (thorough 15 s) of real time for one response.",
    note="Trusted: reference model for which keys are installed; canonicalisation of keyed lists; in-process Get stream (no gRPC codec).",
    design="DESIGN.md §4 C07"),
  "C15": dict(
    technique="property-based round-trip testing: reconciler output applied to the live target RIB with reference checking on, then contents compared with the intended RIB",
    level="exploration",
-   text="Pairs of reference-closed RIBs (shared generated base history plus an independent extension each; intended instances a subset of the target's; boundary id bases) are reconciled; the emitted operations are applied to the real target in the documented dependency order and each must be acknowledged by its own call; afterwards both RIBs' contents must be equal in every network instance, a second reconcile must be empty and the ids must be exactly base+1..base+n. The key universes hold two spellings of one prefix (distinct keys for the RIB).",
+   text="Pairs of reference-closed RIBs (shared generated base history plus an independent extension each; intended instances a subset of the target's; boundary id bases) are reconciled; the emitted operations are applied to the real target in the documented dependency order and each must be acknowledged by its own call; afterwards both RIBs' contents must be equal in every network instance, a second reconcile must be empty and the ids must be exactly base+1..base+n. The key universes hold two spellings of one prefix (distinct keys for the RIB). A large-tables scope reconciles tables of up to 2049 entries on either side.",
    note="Trusted: rib.RIB semantics themselves (decided by C01-C03) since the oracle applies the operations to a real RIB; obs conversion.",
    design="DESIGN.md §4 C15"),
  "C04": dict(
    technique="model-based property testing of multi-session scripts (harness-owned interleaving at message granularity) against the election/session model, with before/after state snapshots through Get and hooks",
    level="exploration",
-   text="Scripts of connect / negotiate / announce / operate / disconnect steps for 2-3 sessions (random up to 25 steps, exhaustive up to 4/5 steps over a 2-session alphabet) with announced ids and operation stamps drawn independently from a 128-bit lattice are run over in-process streams. An operation must be accepted iff its session is the model's primary and its stamp equals the session's last announced id and the highest id learnt; every other operation must be answered FAILED or end its RPC and leave Get contents, held operations, counters, election id and primary untouched. In addition, in-flight schedules: the primary's request is stopped inside one of its operations through the public post-change hook, announcements of up to three other sessions are delivered meanwhile (each followed until it is answered or its handler is parked on a lock - goroutine state), the operation is released; at quiescence election id and primary must be those the announcements produce in their order (any announcer of the maximum if some had to wait) and exactly the primary's correctly stamped probe operation must be programmed. The wall clock the server reads belongs to the harness (VerifSetClock hook) and is stepped backwards/forwards or frozen at drawn steps.",
+   text="Scripts of connect / negotiate / announce / operate / disconnect steps for 2-3 sessions (random up to 25 steps, exhaustive up to 4/5 steps over a 2-session alphabet) with announced ids and operation stamps drawn independently from a 128-bit lattice are run over in-process streams. An operation must be accepted iff its session is the model's primary and its stamp equals the session's last announced id and the highest id learnt; every other operation must be answered FAILED or end its RPC and leave Get contents, held operations, counters, election id and primary untouched. In addition, in-flight schedules: the primary's request is stopped inside one of its operations through the public post-change hook, announcements of up to three other sessions are delivered meanwhile (each followed until it is answered or its handler is parked on a lock - goroutine state), the operation is released; at quiescence election id and primary must be those the announcements produce in their order (any announcer of the maximum if some had to wait) and exactly the primary's correctly stamped probe operation must be programmed. The wall clock the server reads belongs to the harness (VerifSetClock hook) and is stepped backwards/forwards or frozen at drawn steps. Scripts may start on a server with an injected election id (NewFake + InjectElectionID); in the in-flight schedules clients of idle sessions may go away meanwhile.",
    note="Trusted: the election model (primary = most recent announcer of an id >= all earlier ones, 128-bit compare); in-process streams; hooks for election state. Operations never become held here (C06 covers hand-over with held operations).",
    design="DESIGN.md §4 C04"),
  "C05": dict(
    technique="exhaustive small-scope enumeration + rapid sequences of election announcements against an explicit election model, with a behavioural probe of the primary",
    level="exploration",
-   text="All announcement sequences of length<=3 (quick) / <=4 (thorough) over the 9-id lattice {0,1,2}^2 and 3 sessions, plus random sequences with boundary-structured 128-bit ids, ties, decreases and disconnects. Every election response must carry exactly the running 128-bit maximum; a zero id must end that RPC with INVALID_ARGUMENT and change nothing; after every step the hook's (id, primary) must equal the model's, and every announced session's correctly stamped probe operation must be acknowledged iff it is the model's primary. The in-flight schedules of C04 (announcements delivered while an operation of the primary is stopped inside the post-change hook) are run with this property's clauses: no election response below the id it answers or above the maximum announced; id and primary at quiescence. Announcements may carry an unknown field inside the election-id message (same number, different bytes).",
+   text="All announcement sequences of length<=3 (quick) / <=4 (thorough) over the 9-id lattice {0,1,2}^2 and 3 sessions, plus random sequences with boundary-structured 128-bit ids, ties, decreases and disconnects. Every election response must carry exactly the running 128-bit maximum; a zero id must end that RPC with INVALID_ARGUMENT and change nothing; after every step the hook's (id, primary) must equal the model's, and every announced session's correctly stamped probe operation must be acknowledged iff it is the model's primary. The in-flight schedules of C04 (announcements delivered while an operation of the primary is stopped inside the post-change hook) are run with this property's clauses: no election response below the id it answers or above the maximum announced; id and primary at quiescence. Announcements may carry an unknown field inside the election-id message (same number, different bytes). Sequences may start on a server with an injected election id (NewFake + InjectElectionID).",
    note="Trusted: the model definition taken from the property text; sequential (harness-owned) interleaving only - concurrent announcements are examined under C11.",
    design="DESIGN.md §4 C05"),
  "C06": dict(
    technique="model-based property testing of multi-session histories with a per-stream exactly-once result accounting oracle",
    level="exploration",
-   text="Multi-session histories with batches of 1-8 operations over all tables (held operations that later resolve or fail, empty/unknown network instances, non-primary senders, wrong stamps), RIB-ack and FIB-ack, hand-over of the primary role while operations are held and per-session id counters that overlap across sessions. Per stream, up to a barrier after every request: no result for an id not sent on it; per id one of [FAILED], [RIB], [RIB,FIB]; never a verdict twice or failure and success; unanswered only if held, stream ended or primary role lost. In addition: dependency graphs sent by one elected session, and hand-overs in flight (the cascade that installs 1-6 held operations is stopped at a drawn installation through the post-change hook, another session takes over, the cascade is released): per-id verdict sequences must stay legal on every stream. A message for a session that sent nothing is accepted only if it fails that session's own unanswered operations. A backlog scope holds 255-4097 operations for missing groups while unrelated entries are installed and single operations are released; the harness-owned wall clock is stepped at drawn steps.",
+   text="Multi-session histories with batches of 1-8 operations over all tables (held operations that later resolve or fail, empty/unknown network instances, non-primary senders, wrong stamps), RIB-ack and FIB-ack, hand-over of the primary role while operations are held and per-session id counters that overlap across sessions. Per stream, up to a barrier after every request: no result for an id not sent on it; per id one of [FAILED], [RIB], [RIB,FIB]; never a verdict twice or failure and success; unanswered only if held, stream ended or primary role lost. In addition: dependency graphs sent by one elected session, and hand-overs in flight (the cascade that installs 1-6 held operations is stopped at a drawn installation through the post-change hook, another session takes over, the cascade is released): per-id verdict sequences must stay legal on every stream. A message for a session that sent nothing is accepted only if it fails that session's own unanswered operations. A backlog scope holds 255-4097 operations for missing groups while unrelated entries are installed and single operations are released; the harness-owned wall clock is stepped at drawn steps. Non-first operation ids may be 0 or 2^61+1.",
    note="Trusted: relation model deciding which operations are held; barrier-based quiescence of in-process streams; reading of gribi.proto that a fail-over discards the previous primary's held operations.",
    design="DESIGN.md §4 C06"),
  "C09": dict(
    technique="exhaustive small-scope enumeration + rapid message sequences against a session-protocol model with an explicit table of acceptable termination statuses",
    level="exploration",
-   text="All message sequences of total length<=3 (quick) / <=4 (thorough) over an 18-symbol alphabet on two sessions and random sequences up to 14 messages on three: parameter combinations, election ids, stamped/unstamped operations, multi-field and empty messages, half-closes. Each violation must end exactly that RPC with a code and ModifyRPCErrorDetails reason from the acceptable set; afterwards Get, held operations, counters, election id/primary and the other streams must be untouched, the session footprint must equal the open sessions and later sessions proceed normally. The random alphabet contains requests with several differently stamped operations (own, wrong, explicit zero, none), scripts also run on a server that has already seen 15-257 (thorough 4097) short-lived sessions, and the harness-owned wall clock is stepped at drawn steps.",
+   text="All message sequences of total length<=3 (quick) / <=4 (thorough) over an 18-symbol alphabet on two sessions and random sequences up to 14 messages on three: parameter combinations, election ids, stamped/unstamped operations, multi-field and empty messages, half-closes. Each violation must end exactly that RPC with a code and ModifyRPCErrorDetails reason from the acceptable set; afterwards Get, held operations, counters, election id/primary and the other streams must be untouched, the session footprint must equal the open sessions and later sessions proceed normally. The random alphabet contains requests with several differently stamped operations (own, wrong, explicit zero, none), scripts also run on a server that has already seen 15-257 (thorough 4097) short-lived sessions, and the harness-owned wall clock is stepped at drawn steps. The alphabet contains operations of no defined type, stamped or not.",
    note="Trusted: the status table transcribed from gribi.proto comments and compliance expectations (sets where several statuses are acceptable); the tolerance for parameters checked against a not-yet-negotiated peer.",
    design="DESIGN.md §4 C09"),
  "C12": dict(
    technique="property-based testing with constructed invalid classes and structural protobuf mutation of valid operations, before/after state comparison and a twin-RIB panic screen; the thorough tier adds coverage-guided native fuzzing (go test -fuzz) of proto.Unmarshal-decoded operations with the same oracle inside the target",
    level="exploration",
-   text="A server pre-loaded with a generated RIB and a second idle session receives one message: every constructed invalid class, 1-3 structural mutations (undefined enum numbers, cleared sub-messages, duplicated list keys, invalid UTF-8, boundary integers, junk strings) of valid full-field operations, or a malformed Get/Flush. The operation is first applied to a twin RIB under recover (a panic there is a violation with the case), then sent through the server: exactly one in-band result or a clean RPC error on that session only; the idle session sees nothing and afterwards wins an election and programs an entry; rejected operations leave contents, held set and counters identical, accepted mutants change only their own key and keep counters and Get consistent. A mutant that is malformed by the model's static validity rules (zero/missing key or group, empty group, zero member index, label out of range, unknown group network instance, nil entry) must be rejected whatever else it carries - never programmed, never held; the constructed classes include the same defects on otherwise fully populated operations. Constructed classes include leaves only the schema constrains (metadata longer than 8 bytes, malformed addresses, label out of range); a long-bytes mutator and a static metadata rule cover the same for mutants.",
+   text="A server pre-loaded with a generated RIB and a second idle session receives one message: every constructed invalid class, 1-3 structural mutations (undefined enum numbers, cleared sub-messages, duplicated list keys, invalid UTF-8, boundary integers, junk strings) of valid full-field operations, or a malformed Get/Flush. The operation is first applied to a twin RIB under recover (a panic there is a violation with the case), then sent through the server: exactly one in-band result or a clean RPC error on that session only; the idle session sees nothing and afterwards wins an election and programs an entry; rejected operations leave contents, held set and counters identical, accepted mutants change only their own key and keep counters and Get consistent. A mutant that is malformed by the model's static validity rules (zero/missing key or group, empty group, zero member index, label out of range, unknown group network instance, nil entry) must be rejected whatever else it carries - never programmed, never held; the constructed classes include the same defects on otherwise fully populated operations. Constructed classes include leaves only the schema constrains (metadata longer than 8 bytes, malformed addresses, label out of range); a long-bytes mutator and a static metadata rule cover the same for mutants. The zero-member-index class is repeated in wide groups (8-257 members).",
    note="Trusted: classification of the constructed classes as invalid (from the property text); the in-process stream (delivers messages gRPC's codec would refuse). A crash of the test process is reported by the driver as a violation with the in-flight case.",
    design="DESIGN.md §4 C12"),
  "C10": dict(
    technique="fault enumeration over generated scripts: every cut point x termination mode (in-process streams give exact cut points), prefix-of-sent-operations oracle, probe session under a watchdog with goroutine-dump attribution",
    level="fault_enumeration",
-   text="For every generated Modify script all single faults are enumerated: the client goes away after each message sent, after each response read, at the K-th response inside a batch (send failure, or flow-control stall followed by cancel), by half-close, cancel or transport error; Gets are abandoned after each received response 0..n; plus random sequences of 2-3 faults. Once the RPC has ended and its goroutines are parked, entries read through a fresh Get must equal the model state after some prefix of the sent operations that includes every acknowledged one, the learnt election id must be the maximum delivered, the session footprint must be gone, and a probe session (negotiate, win election, ADD, Get, Flush) must complete; a watchdog expiry counts only with a gribigo frame parked on a lock/channel. The same scripts are also run with the server behind a real grpc.Server over bufconn: CloseSend, context cancellation (RST_STREAM), teardown of the client's connection, a client that never reads and then cancels, an abandoned Get stream, and a flood of cheap operations that parks the server's writer in HTTP/2 flow control before the client goes away. Half of the abandoned Gets are the first read after state-neutral writes to every table. A long-lived-server scope lets 15-257 (thorough 4097) clients abandon a Get on one server before it is probed.",
+   text="For every generated Modify script all single faults are enumerated: the client goes away after each message sent, after each response read, at the K-th response inside a batch (send failure, or flow-control stall followed by cancel), by half-close, cancel or transport error; Gets are abandoned after each received response 0..n; plus random sequences of 2-3 faults. Once the RPC has ended and its goroutines are parked, entries read through a fresh Get must equal the model state after some prefix of the sent operations that includes every acknowledged one, the learnt election id must be the maximum delivered, the session footprint must be gone, and a probe session (negotiate, win election, ADD, Get, Flush) must complete; a watchdog expiry counts only with a gribigo frame parked on a lock/channel. The same scripts are also run with the server behind a real grpc.Server over bufconn: CloseSend, context cancellation (RST_STREAM), teardown of the client's connection, a client that never reads and then cancels, an abandoned Get stream, and a flood of cheap operations that parks the server's writer in HTTP/2 flow control before the client goes away. Half of the abandoned Gets are the first read after state-neutral writes to every table. A long-lived-server scope lets 15-257 (thorough 4097) clients abandon a Get on one server before it is probed. A disconnect-during-a-hand-over scope lets clients of idle sessions go away while an operation of the primary is in flight and other sessions announce election ids.",
    note="Trusted: belief model (servers run with forward references disallowed so unanswered operations are deterministic); goroutine-state quiescence; emulation of transport faults at the stream interface (kernel-level failures out of reach).",
    design="DESIGN.md §4 C10"),
  "C17": dict(
    technique="property-based differential testing of each chk helper against a direct specification of 'present' on a capturing testing.TB",
    level="exploration",
-   text="Generated result lists, Get responses, client errors and wanted items (70% absent by a one-field perturbation, all five entry kinds, every option combination) are given to each helper on a capturing testing.TB; a field-by-field specification written without cmp decides presence and both directions must agree; HasResultsCache is additionally compared with HasResult (cache-pass implies plain-pass, equality when lookup keys are unique) and documented test-author errors must be fatal. Instance names include names that extend one another (VRF-1, VRF-12) with near-miss wants whose name/key boundary is moved by one character.",
+   text="Generated result lists, Get responses, client errors and wanted items (70% absent by a one-field perturbation, all five entry kinds, every option combination) are given to each helper on a capturing testing.TB; a field-by-field specification written without cmp decides presence and both directions must agree; HasResultsCache is additionally compared with HasResult (cache-pass implies plain-pass, equality when lookup keys are unique) and documented test-author errors must be fatal. Instance names include names that extend one another (VRF-1, VRF-12) with near-miss wants whose name/key boundary is moved by one character. The prefix pools hold several spellings of one prefix.",
    note="Trusted: the specification of presence transcribed from the helper documentation; one documented-ambiguous region (AllowUnimplemented vs details of other codes) is not asserted.",
    design="DESIGN.md §4 C17"),
  "C18": dict(
    technique="property-based testing of generated builder programs against an independent interpreter, observed through a recording stub GRIBIClient",
    level="exploration",
-   text="Programs of constructor/With*/Add* calls over the five entry builders and both encap-header builders, interleaved with AddEntry/ReplaceEntry/DeleteEntry, UpdateElectionID, StartSending and OpProto/EntryProto probes, run on a fluent client (elected-primary or all-primary) wired to a recording stub; builders keep being mutated after they were queued. An independent interpreter computes the expected protos, ids 1,2,3.., operation types and election stamps; probes are compared immediately, the request pointers received by the stub only at the very end so that aliasing of queued messages shows. Queue and election calls are made on a fresh Modify() handle, on the handle the previous call returned (chaining) or on a handle kept from the start; programs may restart the client (Stop + Start + StartSending: ids keep counting, the stamp stays the latest UpdateElectionID). String pools include valid values a normaliser would rewrite (host bits, upper-case or zero-padded hex, IPv4-mapped, surrounding blanks).",
+   text="Programs of constructor/With*/Add* calls over the five entry builders and both encap-header builders, interleaved with AddEntry/ReplaceEntry/DeleteEntry, UpdateElectionID, StartSending and OpProto/EntryProto probes, run on a fluent client (elected-primary or all-primary) wired to a recording stub; builders keep being mutated after they were queued. An independent interpreter computes the expected protos, ids 1,2,3.., operation types and election stamps; probes are compared immediately, the request pointers received by the stub only at the very end so that aliasing of queued messages shows. Queue and election calls are made on a fresh Modify() handle, on the handle the previous call returned (chaining) or on a handle kept from the start; programs may restart the client (Stop + Start + StartSending: ids keep counting, the stamp stays the latest UpdateElectionID). String pools include valid values a normaliser would rewrite (host bits, upper-case or zero-padded hex, IPv4-mapped, surrounding blanks). A restart may re-specify the initial election id between Stop and Start.",
    note="Trusted: the interpreter's reading of each setter (last call wins, Add* appends); header builders are not modified after AddEncapHeader; the stub stands in for gRPC (no serialisation).",
    design="DESIGN.md §4 C18"),
  "C13": dict(
@@ -103,19 +103,19 @@ CHECKS = {
  "C14": dict(
    technique="fault enumeration: every fault index x side x status class x burst size x epilogue on a scripted stub stream, with watchdog and goroutine-dump census oracles",
    level="fault_enumeration",
-   text="A scripted exchange is cut by one stream fault at every message index on the send side (failing Send, or a Send stalled by flow control that then fails) and on the receive side, for EOF/Unavailable/Internal/Canceled, while the application queues a burst of 0..12 further requests; then Close, or Reset + new stub + Connect + a further exchange. The full product over small parameters is enumerated and larger ones are drawn. Done must fire, every Q must return, the error must be recorded, AwaitConverged must return a *ClientErr (never nil), Close/Reset must return, no goroutine with client frames may remain, and after Reset+Connect the client must be empty, the new stream must carry exactly a fresh client's messages and a further exchange must converge. 0-4 application goroutines may already be inside AwaitConverged when the stream breaks, the burst may be queued by another goroutine while the stream breaks, and a repeated contention scenario (several waiters, bursts of 7-12) looks for lock cycles between queueing calls, waiters and the client's sender/receiver. A many-outstanding scope uses requests of 255-8193 operations each, so that thousands are unanswered when the stream breaks.",
+   text="A scripted exchange is cut by one stream fault at every message index on the send side (failing Send, or a Send stalled by flow control that then fails) and on the receive side, for EOF/Unavailable/Internal/Canceled, while the application queues a burst of 0..12 further requests; then Close, or Reset + new stub + Connect + a further exchange. The full product over small parameters is enumerated and larger ones are drawn. Done must fire, every Q must return, the error must be recorded, AwaitConverged must return a *ClientErr (never nil), Close/Reset must return, no goroutine with client frames may remain, and after Reset+Connect the client must be empty, the new stream must carry exactly a fresh client's messages and a further exchange must converge. 0-4 application goroutines may already be inside AwaitConverged when the stream breaks, the burst may be queued by another goroutine while the stream breaks, and a repeated contention scenario (several waiters, bursts of 7-12) looks for lock cycles between queueing calls, waiters and the client's sender/receiver. A many-outstanding scope uses requests of 255-8193 operations each, so that thousands are unanswered when the stream breaks. A linger scope leaves the re-connected session alone for 1-11 s (thorough 61 s) of real time before it is used again.",
    note="Trusted: the stub's emulation of the gRPC client-stream contract; goroutine census by stack frames; 10 s watchdog (a hang is reported only with the blocked client frames in the dump).",
    design="DESIGN.md §4 C14"),
  "C11": dict(
    technique="randomised concurrent workloads (rapid-drawn scripts, scheduler perturbation, GOMAXPROCS variation) and election storms (simultaneous announcements from a spin barrier) under the Go race detector with a hang watchdog and a quiescent-state oracle",
    level="exploration",
-   text="2-4 Modify sessions with ascending election ids (ties across sessions) and batches over per-session disjoint keys run from real goroutines together with Get readers and Flush callers (override and id-authorised) against one server built with -race. Any race-detector report is a violation (signature = the racing gribigo functions), as is a process death or a hang with gribigo frames parked on a lock/channel. At quiescence the learnt election id must be the maximum announced, the primary a session that announced it, every operation answered with one legal result sequence and, when no Flush overlapped, Get(ALL) must equal the union of the per-session folds of acknowledged operations. One session in five ends with a request during which its client goes away while the others go on; one random workload in four runs over real gRPC (bufconn). One workload in three runs on a server with both public RIB hooks registered (the post-change hook taking a drawn time); sessions keep their groups in a drawn home instance.",
+   text="2-4 Modify sessions with ascending election ids (ties across sessions) and batches over per-session disjoint keys run from real goroutines together with Get readers and Flush callers (override and id-authorised) against one server built with -race. Any race-detector report is a violation (signature = the racing gribigo functions), as is a process death or a hang with gribigo frames parked on a lock/channel. At quiescence the learnt election id must be the maximum announced, the primary a session that announced it, every operation answered with one legal result sequence and, when no Flush overlapped, Get(ALL) must equal the union of the per-session folds of acknowledged operations. One session in five ends with a request during which its client goes away while the others go on; one random workload in four runs over real gRPC (bufconn). One workload in three runs on a server with both public RIB hooks registered (the post-change hook taking a drawn time); sessions keep their groups in a drawn home instance. Extra goroutines create network instances at runtime beside the workload.",
    note="Trusted: the Go race detector's happens-before analysis on the executions seen; the scheduler chooses the interleavings (sampled, not enumerated).",
    design="DESIGN.md §4 C11"),
  "C19": dict(
    technique="property-based testing of the compliance suite itself: rapid-drawn permutations/configurations on a shared conformant server, and a catalogue of single-requirement faulty servers (rewriting proxy over bufconn) with designated tests as oracle",
    level="exploration",
-   text="Conformant half: every test of compliance.TestSuite must pass on a capturing testing.TB when the whole suite runs over real gRPC (bufconn) on one long-lived reference server in a generated permutation with a generated starting election id and VRF name. Faulty half: 29 single-requirement faults (response/request-rewriting proxy around the reference server, or the opposite server option); each (fault, designated test) pair must fail on a fresh faulty server and pass on a fresh unwrapped server in the same run; designation follows the registry's Requires* flags and test names only. The catalogue includes Get RPCs that end with a non-OK status after the complete data or after the first response. Further faults cover the plain 'this works' tests (valid additions / groups / deletes / metadata / cross-instance references / identical next-hops refused, session parameters never accepted, Modify unavailable, second matching session refused) and a session error with the right code but the wrong reason; a pair is retried up to three times before a test counts as unable to detect its fault. The catalogue includes servers that report acknowledgements with other values of the status enumeration (deprecated OK without FIB ack, UNSET).",
+   text="Conformant half: every test of compliance.TestSuite must pass on a capturing testing.TB when the whole suite runs over real gRPC (bufconn) on one long-lived reference server in a generated permutation with a generated starting election id and VRF name. Faulty half: 29 single-requirement faults (response/request-rewriting proxy around the reference server, or the opposite server option); each (fault, designated test) pair must fail on a fresh faulty server and pass on a fresh unwrapped server in the same run; designation follows the registry's Requires* flags and test names only. The catalogue includes Get RPCs that end with a non-OK status after the complete data or after the first response. Further faults cover the plain 'this works' tests (valid additions / groups / deletes / metadata / cross-instance references / identical next-hops refused, session parameters never accepted, Modify unavailable, second matching session refused) and a session error with the right code but the wrong reason; a pair is retried up to three times before a test counts as unable to detect its fault. The catalogue includes servers that report acknowledgements with other values of the status enumeration (deprecated OK without FIB ack, UNSET). One conformant pass in three runs against a second conformant server whose Get reports the optional entry status fields truthfully.",
    note="Trusted: the catalogue and designation table in harness/c19/catalogue.go (completeness of the catalogue bounds what the faulty half can see); BusyLoopDelay 1 ms; pairs that wait for the suite's one-minute timeout run in the thorough tier only; a test that shuffles its own operations must fail at least once in 12 attempts.",
    design="DESIGN.md §4 C19, Appendix A"),
 }
